@@ -55,6 +55,9 @@ class Put(Event, ContextManager['Put'], Generic[ResourceType]):
         """
         if not self.triggered:
             self.resource.put_queue.remove(self)
+            # The request may have been blocking later ones that can be
+            # satisfied in the current state.
+            self.resource._trigger_put(None)
 
 
 class Get(Event, ContextManager['Get'], Generic[ResourceType]):
@@ -93,6 +96,9 @@ class Get(Event, ContextManager['Get'], Generic[ResourceType]):
         """
         if not self.triggered:
             self.resource.get_queue.remove(self)
+            # The request may have been blocking later ones that can be
+            # satisfied in the current state.
+            self.resource._trigger_get(None)
 
 
 PutType = TypeVar('PutType', bound=Put)
